@@ -39,6 +39,7 @@ import M4riProofs.GenTie
 import M4riProofs.GenTieAlg
 import M4riProofs.GenTieSlice
 import M4riProofs.GenTiePleFinal
+import M4riProofs.GenTieGlue
 namespace M4ri.Props.C03
 open M4ri M4ri.BMat
 
@@ -166,5 +167,10 @@ theorem pluq_end_to_end (L1 L2 L3 : Nat) {A : BMat} (hA : A.WF) :
 #check @M4ri.GenTiePle.pleRecStep_pleRec_full
 #check @M4ri.GenTiePle.pleRecStep_pleRec
 #check @M4ri.GenTiePle.pleRecStep_eq
+
+
+/-! ### tie to the C text: `mzd_trtri_upper` (64-bit regime test, SSE2 split, three windows, the two translated TRSM routines, two recursive
+    calls), `_mzd_pluq` and `_mzd_solve_left` are generated by vlib/ctrans.py on every check and proved equal to the model (GenTieGlue.lean) -/
+#check @M4ri.GenTieGlue.pluqFromPle_eq
 
 end M4ri.Props.C03
